@@ -187,6 +187,9 @@ func (c *Conn) readNextClientHello(ctx context.Context) (*clientHelloMsg, error)
 				_ = c.sendAlert(alertUnexpectedMessage)
 				return nil, unexpectedMessageError((*clientHelloMsg)(nil), msg)
 			}
+			if err := c.selectConfigForClient(ctx, msg.(*clientHelloMsg)); err != nil {
+				return nil, err
+			}
 			return msg.(*clientHelloMsg), nil
 		}
 
@@ -282,6 +285,31 @@ func (hs *serverHandshakeState) handshake() error {
 // readClientHello — 读取并处理 ClientHello
 // =============================================================================
 
+// selectConfigForClient 按 ClientHello 选择配置（Config.GetConfigForClient）。
+// 每个 ClientHello 都要重新选择，且总是从最初的配置出发：首个（不带 cookie 的）ClientHello 不在握手摘要内，
+// 途中被改动（例如 server_name）不会被 Finished 发现；若只按它选择配置，中间人即可决定服务端使用
+// 哪套配置（密码套件、客户端认证策略）。最终生效的是通过 cookie 校验、计入握手摘要的那个 ClientHello 的选择。
+func (c *Conn) selectConfigForClient(ctx context.Context, clientHello *clientHelloMsg) error {
+	if c.baseConfig == nil {
+		c.baseConfig = c.config
+	}
+	if c.baseConfig.GetConfigForClient == nil {
+		return nil
+	}
+	chi := clientHelloInfo(ctx, c, clientHello)
+	configForClient, err := c.baseConfig.GetConfigForClient(chi)
+	if err != nil {
+		_ = c.sendAlert(alertInternalError)
+		return err
+	}
+	if configForClient != nil {
+		c.config = configForClient
+	} else {
+		c.config = c.baseConfig
+	}
+	return nil
+}
+
 // readClientHello 读取一个 ClientHello 消息，并进行版本协商和配置选择。
 func (c *Conn) readClientHello(ctx context.Context) (*clientHelloMsg, error) {
 	msg, err := c.readHandshake(nil)
@@ -294,15 +322,8 @@ func (c *Conn) readClientHello(ctx context.Context) (*clientHelloMsg, error) {
 		return nil, unexpectedMessageError(clientHello, msg)
 	}
 
-	var configForClient *Config
-	if c.config.GetConfigForClient != nil {
-		chi := clientHelloInfo(ctx, c, clientHello)
-		if configForClient, err = c.config.GetConfigForClient(chi); err != nil {
-			_ = c.sendAlert(alertInternalError)
-			return nil, err
-		} else if configForClient != nil {
-			c.config = configForClient
-		}
+	if err = c.selectConfigForClient(ctx, clientHello); err != nil {
+		return nil, err
 	}
 
 	// 仅在首次收到 ClientHello 时进行版本协商
